@@ -1,35 +1,247 @@
 package bytebufferpool
 
-import "sync"
+import (
+	"fmt"
+	"sync"
+)
 
-// Control is installed by the simulator for a C13 run. All calls arrive on the
-// goroutine that holds the scheduler's baton, so implementations need no locks.
-type Control interface {
-	// Event is called before every pool or buffer operation (a scheduling point).
-	Event(op string, b *ByteBuffer)
-	// Get returns the buffer to hand out (the control owns reuse policy).
-	Get(p *Pool) *ByteBuffer
-	// Put receives a released buffer.
-	Put(p *Pool, b *ByteBuffer)
+// Config is installed by the simulator for a C13 run. While a Config is
+// installed all pool and buffer operations arrive on the goroutine that holds
+// the scheduler's baton, so the state below needs no locking.
+type Config struct {
+	// Fresh: never reuse a buffer, Put only resets the length, no poisoning.
+	// This is the reference behaviour: what an instance sees in a process in
+	// which nothing else ever ran.
+	Fresh bool
+	// Get policy when not Fresh: lifo | fifo | random.
+	Get  string
+	Seed uint64
+	// NewCaps: capacities of newly created buffers (cycled); their spare
+	// capacity is pre-filled with garbage. Empty = capacity 0.
+	NewCaps []int
+	// Prefill: buffers every pool holds before its first Get ("what other
+	// instances did earlier in the process").
+	Prefill []PreBuf
+	// Yield is called before every pool and buffer operation: a scheduling point.
+	Yield func(op string)
+	// Task returns the id of the running task (ownership statistics).
+	Task func() int
+}
+
+// PreBuf describes a prefilled buffer.
+type PreBuf struct {
+	Cap  int
+	Fill byte
+}
+
+// Stats counts what the pool actually did in a run.
+type Stats struct {
+	Gets, Puts      int
+	NewBufs         int
+	Reused          int // Gets served from the free list
+	CrossTask       int // reused buffers last released by a different task
+	PrefillConsumed int // reused buffers that came from the prefill
+	PoisonChecked   int // poison checksums verified
+	BufferOps       int // ByteBuffer method calls
+	Pools           int
+}
+
+// State is the simulator-side state of an installed Config.
+type State struct {
+	cfg        *Config
+	pools      []*Pool // first-seen order (never iterate a map)
+	free       map[*Pool][]*ByteBuffer
+	rng        uint64
+	capIdx     int
+	Stats      Stats
+	Violations []string
+	held       map[int]int
+	putSeq     int
 }
 
 var (
-	mu      sync.Mutex
-	control Control
-	nextID  int
+	mu     sync.Mutex
+	state  *State
+	nextID int
 )
 
-// SetControl installs (or, with nil, removes) the simulator's control. Only
-// the simulator calls it, between runs.
-func SetControl(c Control) {
+// Install makes cfg the behaviour of every Pool in the process until
+// Uninstall. Only the simulator calls it, between runs.
+func Install(cfg *Config) *State {
+	s := &State{cfg: cfg, free: map[*Pool][]*ByteBuffer{}, rng: cfg.Seed | 1, held: map[int]int{}}
 	mu.Lock()
-	control = c
+	state = s
+	mu.Unlock()
+	return s
+}
+
+// Uninstall returns to the plain free-list pool.
+func Uninstall() {
+	mu.Lock()
+	state = nil
 	mu.Unlock()
 }
 
 func yield(op string, b *ByteBuffer) {
-	if c := control; c != nil {
-		c.Event(op, b)
+	if s := state; s != nil {
+		s.Stats.BufferOps++
+		if s.cfg.Yield != nil {
+			s.cfg.Yield(op)
+		}
+	}
+}
+
+func (s *State) task() int {
+	if s.cfg.Task != nil {
+		return s.cfg.Task()
+	}
+	return 0
+}
+
+// Held reports how many pool buffers a task currently holds.
+func (s *State) Held(task int) int { return s.held[task] }
+
+func (s *State) next() uint64 {
+	s.rng += 0x9e3779b97f4a7c15
+	z := s.rng
+	z = (z ^ (z >> 30)) * 0xbf58476d1ce4e5b9
+	z = (z ^ (z >> 27)) * 0x94d049bb133111eb
+	return z ^ (z >> 31)
+}
+
+func poisonByte(seq, i int) byte { return byte(0xA5 ^ (seq * 31) ^ (i * 7)) }
+
+func (s *State) poison(b *ByteBuffer) {
+	s.putSeq++
+	full := b.B[:cap(b.B)]
+	h := uint64(14695981039346656037)
+	for i := range full {
+		full[i] = poisonByte(s.putSeq, i)
+		h ^= uint64(full[i])
+		h *= 1099511628211
+	}
+	b.poisoned = true
+	b.sum = h
+	b.poisonCap = cap(b.B)
+}
+
+func (s *State) verify(b *ByteBuffer, when string) {
+	if !b.poisoned {
+		return
+	}
+	s.Stats.PoisonChecked++
+	bad := false
+	if cap(b.B) != b.poisonCap || len(b.B) != 0 {
+		bad = true
+	} else {
+		full := b.B[:cap(b.B)]
+		h := uint64(14695981039346656037)
+		for i := range full {
+			h ^= uint64(full[i])
+			h *= 1099511628211
+		}
+		bad = h != b.sum
+	}
+	if bad {
+		s.Violations = append(s.Violations, fmt.Sprintf("write-after-release: buffer #%d (released by task %d) was modified while it was in the pool (detected %s)", b.id, b.releasedBy, when))
+	}
+	b.poisoned = false
+}
+
+func (s *State) initPool(p *Pool) {
+	if _, ok := s.free[p]; ok {
+		return
+	}
+	s.pools = append(s.pools, p)
+	s.Stats.Pools++
+	var l []*ByteBuffer
+	for _, pb := range s.cfg.Prefill {
+		b := NewBuffer(pb.Cap)
+		full := b.B[:cap(b.B)]
+		for i := range full {
+			full[i] = pb.Fill
+		}
+		b.inPool = true
+		b.prefill = true
+		b.releasedBy = -1
+		l = append(l, b)
+	}
+	s.free[p] = l
+}
+
+func (s *State) get(p *Pool) *ByteBuffer {
+	s.Stats.Gets++
+	t := s.task()
+	s.held[t]++
+	if s.cfg.Fresh {
+		s.Stats.NewBufs++
+		return NewBuffer(0)
+	}
+	s.initPool(p)
+	l := s.free[p]
+	if len(l) == 0 {
+		s.Stats.NewBufs++
+		c := 0
+		if n := len(s.cfg.NewCaps); n > 0 {
+			c = s.cfg.NewCaps[s.capIdx%n]
+			s.capIdx++
+		}
+		b := NewBuffer(c)
+		full := b.B[:cap(b.B)]
+		for i := range full {
+			full[i] = byte(s.next())
+		}
+		return b
+	}
+	i := len(l) - 1
+	switch s.cfg.Get {
+	case "fifo":
+		i = 0
+	case "random":
+		i = int(s.next() % uint64(len(l)))
+	}
+	b := l[i]
+	s.free[p] = append(append([]*ByteBuffer(nil), l[:i]...), l[i+1:]...)
+	s.verify(b, "at the next Get")
+	b.inPool = false
+	s.Stats.Reused++
+	if b.prefill {
+		s.Stats.PrefillConsumed++
+		b.prefill = false
+	} else if b.releasedBy != t {
+		s.Stats.CrossTask++
+	}
+	return b
+}
+
+func (s *State) put(p *Pool, b *ByteBuffer) {
+	s.Stats.Puts++
+	t := s.task()
+	if s.held[t] > 0 {
+		s.held[t]--
+	}
+	if s.cfg.Fresh {
+		b.B = b.B[:0]
+		return
+	}
+	s.initPool(p)
+	if b.inPool {
+		s.Violations = append(s.Violations, fmt.Sprintf("double-put: buffer #%d was released to the pool twice (it could be handed to two instances at once)", b.id))
+		return
+	}
+	b.B = b.B[:0] // the original resets on Put
+	b.inPool = true
+	b.releasedBy = t
+	s.poison(b)
+	s.free[p] = append(s.free[p], b)
+}
+
+// Finish verifies the poison of every buffer still in a pool.
+func (s *State) Finish() {
+	for _, p := range s.pools {
+		for _, b := range s.free[p] {
+			s.verify(b, "at the end of the run")
+		}
 	}
 }
 
@@ -47,7 +259,7 @@ func Get() *ByteBuffer { return defaultPool.Get() }
 // Put returns byte buffer to the default pool.
 func Put(b *ByteBuffer) { defaultPool.Put(b) }
 
-// NewBuffer creates a buffer with a fresh identity (used by controls).
+// NewBuffer creates a buffer with a fresh identity.
 func NewBuffer(capacity int) *ByteBuffer {
 	mu.Lock()
 	nextID++
@@ -60,14 +272,13 @@ func NewBuffer(capacity int) *ByteBuffer {
 	return b
 }
 
-// ID returns the simulator identity of a buffer (0 for a buffer the pool did not create).
-func ID(b *ByteBuffer) int { return b.id }
-
 // Get returns new byte buffer with zero length.
 func (p *Pool) Get() *ByteBuffer {
-	if c := control; c != nil {
-		c.Event("Get", nil)
-		return c.Get(p)
+	if s := state; s != nil {
+		if s.cfg.Yield != nil {
+			s.cfg.Yield("Get")
+		}
+		return s.get(p)
 	}
 	mu.Lock()
 	if n := len(p.free); n > 0 {
@@ -84,9 +295,11 @@ func (p *Pool) Get() *ByteBuffer {
 // Put releases byte buffer obtained via Get to the pool. The buffer mustn't be
 // accessed after returning to the pool.
 func (p *Pool) Put(b *ByteBuffer) {
-	if c := control; c != nil {
-		c.Event("Put", b)
-		c.Put(p, b)
+	if s := state; s != nil {
+		if s.cfg.Yield != nil {
+			s.cfg.Yield("Put")
+		}
+		s.put(p, b)
 		return
 	}
 	b.B = b.B[:0] // the original resets on Put
